@@ -597,12 +597,28 @@ def run_scenario(server, sc):
                 if loop_free():
                     loop.call_soon_threadsafe(j['ev'].set)
                     loop_sync()
+                    if len(hist[i]) < len(progs[i]) and progs[i][len(hist[i])] == 'logout':
+                        # the server ends the conversation when it gets the logout request: wait until it has, so that
+                        # "nothing more arrives" does not depend on timing
+                        srv = server.sessions[-1]
+                        end = time.time() + 1.0
+                        while time.time() < end and not srv.is_closed():
+                            time.sleep(0.001)
+                        del peer[:]
+                        loop_sync()
                 else:
                     diverge(k + 1, lab, 'enabled', 'loop thread not available')
         elif lab == 'close':
             pos = g.position('L')
             if pos == 'spawned':
-                # AsyncSession.close may now begin; it runs up to the injected on_close_coro
+                # AsyncSession.close may now begin; it runs up to the injected on_close_coro.  Coroutines handed to the
+                # loop earlier run first (FIFO ready queue) — the model never schedules `close` here while one is pending
+                for jb in list(W.jobs.values()):
+                    if not jb['released'] and not jb['consumed']:
+                        diverge(k + 1, lab, 'disabled while a coroutine is pending', 'harness ran the pending coroutine first')
+                        jb['released'] = True
+                        loop.call_soon_threadsafe(jb['ev'].set)
+                        loop_sync()
                 loop.call_soon_threadsafe(W.close_released.set)
                 end = time.time() + tmo
                 while time.time() < end and g.position('L') != 'begun':
@@ -1117,11 +1133,11 @@ def run(ctx):
     if not have_model:
         scs = [{'cfg': c, 'labels': l.split(), 'expect': None, 'final': None} for c, l in FALLBACK]
         scs += [dict(s, expect=None, final=None) for s in load_corpus()]
-        for _ in range(40 if quick else 400):       # blind search: random label sequences, executed best-effort
+        for _ in range(24 if quick else 240):       # blind search: random label sequences, executed best-effort
             cfg = gen_cfg(rng, ctx.tier)
             nthr = len(cfg['progs'])
             pool_ = [f'c{i}' for i in range(nthr)] * 6 + [f'j{i}' for i in range(nthr)] * 2 + ['close'] * 4 + ['stop', 'peer', 'peer']
-            scs.append({'cfg': cfg, 'labels': [rng.choice(pool_) for _ in range(70)], 'expect': None, 'final': None})
+            scs.append({'cfg': cfg, 'labels': [rng.choice(pool_) for _ in range(50)], 'expect': None, 'final': None})
         ctx.notes.append('C20: model driver unavailable — oracle only, on the fallback and corpus interleavings')
     for k, s in enumerate(scs):
         s['id'] = k
